@@ -18,7 +18,7 @@ func c05Gen(c *core.Ctx, i int) (*lang.G, []*lang.N, int) {
 	for try := 0; ; try++ {
 		g := &lang.G{R: core.NewRng(c.Seed, "C05", i, try), C: lang.Cfg{
 			Depth: 3 + i%3, Pool: []string{"a", "b", "c"}, Inj: true, Try: true, HigherOrder: i%3 == 0, Variadic: i%4 == 0,
-			Data: i%2 == 1, TrOneIn: 3, MaxStmts: 4,
+			Data: i%2 == 1, TrOneIn: 3, MaxStmts: 4, Recursion: i%3 == 1,
 		}}
 		prog := g.Program()
 		r0 := &lang.R{MaxSteps: 20000}
